@@ -229,7 +229,7 @@ func provablyNonNilErr(v ssa.Value, at *ssa.BasicBlock, depth int) bool {
 }
 
 func ruleR1(p *Prog) *RuleResult {
-	res := newResult("R1", ruleDoc["R1"], 4)
+	res := newResult("R1", ruleDoc["R1"], 3)
 	for _, name := range r1Targets {
 		f := p.Func(name)
 		if f == nil {
